@@ -153,3 +153,71 @@ def run(seed=1, nslow=2, nfast=3, rounds=2, nelem=7000, size=1024, nsmall=3500):
         return problems, stats
     finally:
         srv.stop()
+
+
+def subscribed_pipeline(seed=1, batches=40):
+    """A connection that is subscribed to a channel AND pipelines ordinary commands with replies larger than any write
+    buffer, while other connections publish to that channel as fast as they can. Pushes may appear between replies, never
+    inside one: the byte stream must decode into well-formed values, the replies complete and in request order, the
+    pushes intact and in publish order."""
+    srv = server.Server()
+    problems, stats = [], {"batches": batches, "replies": 0, "pushes": 0}
+    try:
+        c = srv.client(timeout=20.0)
+        elems = [_elem(7, j, 120) for j in range(90)]          # ~11 KB reply
+        c.cmd("RPUSH", "sp-big", *elems)
+        a = _conn(srv.port)
+        a.sendall(server.encode(["SUBSCRIBE", "sp-ch"]))
+        buf = b""
+        v, buf = _read_value(a, buf, False, None)
+        stop = threading.Event()
+
+        def publisher(i):
+            try:
+                p = srv.client(timeout=20.0)
+                n = 0
+                while not stop.is_set():
+                    p.cmd("PUBLISH", "sp-ch", "m%d-%06d" % (i, n))
+                    n += 1
+                p.close()
+            except Exception:
+                pass
+
+        pubs = [threading.Thread(target=publisher, args=(i,)) for i in range(2)]
+        for t in pubs:
+            t.start()
+        last = {}
+        try:
+            for b in range(batches):
+                n1, n2 = ("a%d" % b).encode(), ("b%d" % b).encode()
+                a.sendall(server.encode(["PING", n1]) + server.encode(["LRANGE", "sp-big", "0", "-1"]) + server.encode(["PING", n2]) + server.encode(["LLEN", "sp-big"]))
+                want = [("$", n1), ("*", [("$", e) for e in elems]), ("$", n2), (":", len(elems))]
+                got = 0
+                while got < len(want):
+                    v, buf = _read_value(a, buf, False, None)
+                    if v[0] == "*" and len(v[1]) == 3 and v[1][0] == ("$", b"message"):
+                        stats["pushes"] += 1
+                        who, num = v[1][2][1].split(b"-")
+                        if v[1][1] != ("$", b"sp-ch") or last.get(who, -1) >= int(num):
+                            problems.append({"kind": "push-corrupt-or-out-of-order", "conn": "subscriber", "cmd": "PUBLISH", "detail": repr(v)[:200]})
+                            raise StopIteration
+                        last[who] = int(num)
+                        continue
+                    if v != want[got]:
+                        problems.append({"kind": "reply-corrupt", "conn": "subscriber", "cmd": ["PING", "LRANGE sp-big 0 -1", "PING", "LLEN"][got],
+                                         "detail": "reply %d of batch %d differs from the expected value (a push or another reply was written into it?): got %s" % (got, b, repr(v)[:160])})
+                        raise StopIteration
+                    got += 1
+                    stats["replies"] += 1
+        except StopIteration:
+            pass
+        except Exception as e:
+            problems.append({"kind": "malformed-or-lost-reply", "conn": "subscriber", "cmd": "pipeline", "detail": "the reply stream of the subscribed connection does not decode: " + repr(e)[:200]})
+        stop.set()
+        for t in pubs:
+            t.join(timeout=20)
+        if not srv.alive():
+            problems.append({"kind": "process-death", "conn": "-", "cmd": "-", "detail": srv.tail(1200)})
+        return problems, stats
+    finally:
+        srv.stop()
